@@ -53,6 +53,17 @@ class _Cexptrk_Potential_Function(object):
       raise Potential_Form_Exception(msg)
       
 
+  def compile(self):
+    """Parse the expression now rather than on first use, so that a formula that cannot be parsed is reported
+    even when nothing evaluates it. Call once every function the formula may use has been registered."""
+    if not self._expression:
+      try:
+        self._expression = cexprtk.Expression(self._potential_form_tuple.expression, self._local_symbol_table)
+      except (cexprtk.ParseException, UnicodeError) as pe:
+        sig = "{}({})".format(self._potential_form_tuple.signature.label, ",".join(self._potential_form_tuple.signature.parameter_names))
+        raise Potential_Form_Exception("In potential-form '{} = {}': mathematical expression couldn't be parsed {}".format(
+          sig, self._potential_form_tuple.expression, pe))
+
   def __call__(self, *args):
     parameter_names = self._potential_form_tuple.signature.parameter_names
     if len(args) != len(parameter_names):
